@@ -3,16 +3,23 @@
   (breakpad-symbols/src/http.rs):
 
     * `create_cache_file` / `commit_cache_file`   (http.rs:139-178)
-    * `fetch_symbol_file`                          (http.rs:262-327)  — GET, temp file in the tmp dir,
+    * `fetch_symbol_file`                          (http.rs:301-372)  — GET, temp file in the tmp dir,
       `SymbolFile::parse_async` with the tee callback, commit only after the parse returned `Ok`
-    * `locate_symbols`                             (http.rs:460-524)  — local paths and cache first,
+    * `locate_symbols`                             (http.rs:501-565)  — local paths and cache first,
       only `NotFound` cascades, the servers in order, any fetch error moves on to the next server
+    * `fetch_lookup` / `locate_file_internal`     (http.rs:81-132, 378-411)  — the opaque download of
+      binaries and extra debug files (`namespace File` below)
 
-  What is abstract (a parameter, `ParserModel`): the symbol-file parser. The model needs from it
-  only (a) the whole-buffer parse `parse : Bytes → Option Sym` (`SymbolFile::from_bytes/from_file`),
-  (b) the streaming parse as a state machine fed one network chunk at a time which reports the bytes
-  it handed to the tee callback (`feed`, `finish`), and (c) three laws that are theorems of the
-  parser model of C09/C10, recorded here as named hypotheses (`ParserLaws`).
+  The symbol-file parser enters through an interface (`ParserModel`): (a) the whole-buffer parse
+  `parse : Bytes → Option Sym` (`SymbolFile::from_bytes/from_file`), (b) the streaming parse as a
+  state machine fed one network chunk at a time which reports the bytes it handed to the tee
+  callback (`feed`, `finish`), and (c) three laws (`ParserLaws`). Two instances:
+    * `Real.model` — the byte-level parser model of C09/C10 (`MdModel.SymLine`, `MdModel.SymParse`)
+      inside a model of the loop of `SymbolFile::parse_async` built from the blocks of
+      `MdModel.Stream`. The laws are THEOREMS for it (`MdProofs.Lemmas.CacheFsReal`: `Real.laws`);
+      this is what the compiled model runs in the correspondence check.
+    * `Toy.model` — a small line-buffering parser whose runs can be decided by evaluation; the
+      laws are theorems for it too (`MdProofs.Lemmas.CacheFsToy`).
 
   What is abstract (events): the network (`status`, `chunk`, `eof`, `netError`), the point where the
   caller abandons the future (`drop`), and i/o failures of the caching side that the state does not
@@ -24,6 +31,7 @@
   `remove_file` fails on a directory; `Path::exists` follows symlinks.
 -/
 import MdModel.Prelude
+import MdModel.SymParse
 namespace MdModel.CacheFs
 open MdModel
 
@@ -109,32 +117,39 @@ def parseOk (b : Bytes) : Bool := (P.parse b).isSome
 
 end ParserModel
 
-/-- bytes `Url::to_string` never produces (it percent-encodes them); the `INFO URL` line is cut
-    at `\r`/`\n` and its leading blanks are skipped when it is read back -/
-def UrlClean (u : Url) : Prop := ∀ b ∈ u, b ≠ 10 ∧ b ≠ 13 ∧ b ≠ 32 ∧ b ≠ 9
+/-- what `Url::to_string` produces: ASCII (everything else is percent-encoded / punycoded) without
+    blanks, tabs, CR, LF. The `INFO URL` line is cut at `\r`/`\n`, its leading blanks are skipped and
+    its text must be valid UTF-8 when it is read back (parser.rs:150 `info_url`). -/
+def UrlClean (u : Url) : Prop := ∀ b ∈ u, b ≠ 10 ∧ b ≠ 13 ∧ b ≠ 32 ∧ b ≠ 9 ∧ b < 128
 
 /-- the body ends in a line feed -/
 def EndsNl (b : Bytes) : Prop := ∃ pre, b = pre ++ [10]
 
-/-- Facts about the parser used by the theorems of C16. They are theorems about the parser model
-    of C09/C10 (proved there, assumed here — see the trusted base):
+/-- Facts about the parser used by the theorems of C16 — the interface between the cache protocol
+    and the parser. For the parser model of C09/C10 driven by the loop of `parse_async` (`Real.model`
+    below) all three are THEOREMS (`MdProofs.Lemmas.CacheFsReal`: `Real.laws`); for the small
+    line-buffering instance `Toy.model` too (`Toy.laws`).
     * `callback_prefix`  (C10.7) the concatenated callback arguments are a prefix of what the
       reader delivered, and all of it when the result is `Ok`;
     * `chunk_independent` (C10.6, same hypothesis as there: all lines shorter than 80 KiB) a
       successful streaming parse yields the table of the whole-buffer parse of the same bytes;
     * `info_url_trailer` (DESIGN §6.C16) appending the `INFO URL` line to a body that parses AND
-      ends in a line feed keeps the table and sets the URL. (Without "ends in a line feed" this is
-      false for the real parser: a body whose unterminated last line is longer than the 160 KiB
-      window parses `Ok` — over-long-line recovery discards it — and an appended note would be
-      glued to that line and discarded with it. That was a genuine defect found by this check and
-      repaired in /repo by 4002240: such a body is no longer committed, see `updNl`.) -/
+      ends in a line feed keeps the table and sets the URL — whatever the body contains (an open
+      FUNC / STACK CFI INIT item is finished by the note; an `INFO URL` line of the body itself is
+      overridden by the later note), on the same domain (all lines of the entry, the note included,
+      shorter than 80 KiB: an over-long note would be dropped as corrupt like any over-long line).
+      (Without "ends in a line feed" this is false for the real parser: a body whose unterminated
+      last line is longer than the 160 KiB window parses `Ok` — over-long-line recovery discards it —
+      and an appended note would be glued to that line and discarded with it. That was a genuine
+      defect found by this check and repaired in /repo by 4002240: such a body is no longer
+      committed, see `updNl`.) -/
 structure ParserLaws (P : ParserModel) : Prop where
   callback_prefix : ∀ rx s cb, P.runRev rx = some (s, cb) →
     (∃ rest, cb ++ rest = bodyOf rx) ∧ (∀ fin t, P.finish s = some (fin, t) → cb ++ fin = bodyOf rx)
   chunk_independent : ∀ rx cb t, P.shortLines (bodyOf rx) → P.stream rx = some (cb, t) →
     P.parse (bodyOf rx) = some t
-  info_url_trailer : ∀ body t u, UrlClean u → EndsNl body → P.parse body = some t →
-    P.parse (body ++ trailer u) = some (P.setUrl t u)
+  info_url_trailer : ∀ body t u, UrlClean u → EndsNl body → P.shortLines (body ++ trailer u) →
+    P.parse body = some t → P.parse (body ++ trailer u) = some (P.setUrl t u)
 
 /-! ### One `locate_symbols` call as a state machine -/
 
@@ -362,14 +377,227 @@ def model : ParserModel :=
 
 end Toy
 
+/-! ### The real parser: the C09/C10 model of the Breakpad symbol parser inside `parse_async`
+
+  `SymbolFile::parse_async` (sym_file/mod.rs:198-328) is the loop of `SymbolFile::parse`
+  (`MdModel.Stream`, the blocks `recoverBlock` / `readBlock` / `parseBlock` and the `size == 0`
+  branch) around a different reader: the current HTTP chunk. One iteration is
+
+      [recovery block]; if the chunk is exhausted { response.chunk().await }; read; fill;
+      if size == 0 { … `!tried_to_grow && !(had_space && response_ended)` … } else …; parse_more; callback
+
+  so the future is suspended AFTER the recovery block of an iteration and BEFORE its read. The state
+  between two `response.chunk().await` (`σ`) is therefore a loop state (`Stream.St` with the
+  symbol parser's state `Sym.PState`) taken at that point, with an exhausted reader (`unread = []`).
+  `feed` hands it the next chunk and runs the loop until the chunk is exhausted again; `finish` is
+  the loop after `response.chunk()` returned `None` (every further `chunk()` returns `None` again).
+  The bytes reported to the tee callback are the entries the loop pushed on `cb` meanwhile.
+
+  An EMPTY chunk is not an event of this model (`feed s [] = (s, [])`): hyper's HTTP/1 decoder never
+  yields an empty data frame (`Conn::poll_read_body`), reqwest's gzip decoder neither (`BytesCodec`),
+  and HTTP/2 is not compiled in. (`parse_async` itself would take an empty chunk for a zero-length
+  read, i.e. possibly for the end of the input — recorded as an assumption about the transport.) -/
+namespace Real
+open MdModel.Gen.SymConsts
+
+abbrev LoopSt := Stream.St Sym.PState
+abbrev LoopOut := Stream.Out Sym.PState
+
+/-- the `if size == 0 { … }` branch of `parse_async` (mod.rs:264-305): `Stream.zeroBlock` with the
+    end-of-input test `!tried_to_grow && !(had_space && response_ended)` -/
+def zeroBlockA (hadSpace ended : Bool) (s : LoopSt) : Sum LoopSt (LoopOut × LoopSt) :=
+  if s.justFinished && !s.buf.data.isEmpty then Stream.parseBlock Sym.symOps s
+  else if s.fullyConsumed then .inr (.ok s.ps, s)
+  else if !s.triedToGrow && !(hadSpace && ended) then
+    let newCap := Stream.satDouble s.buf.cap
+    if newCap > MAX_BUFFER_CAPACITY then .inl { s with inRecovery := true }
+    else .inl { s with buf := s.buf.grow newCap, triedToGrow := true }
+  else if s.totalConsumed = 0 then .inr (.err Stream.errEmpty 0, s)
+  else .inr (.err Stream.errEof (Sym.symOps.lines s.ps), s)
+
+/-- the part of an iteration after the chunk fetch (mod.rs:258-326); `ended` = `response_ended`.
+    The reader is the rest of the current chunk (`unread`, empty schedule: `impl Read for &[u8]`
+    fills all the space it is given). -/
+def afterFetch (ended : Bool) (s1 : LoopSt) : Sum LoopSt (LoopOut × LoopSt) :=
+  let hadSpace : Bool := s1.buf.availableSpace > 0
+  let r := Stream.readBlock s1
+  if r.2.length = 0 then zeroBlockA hadSpace ended r.1
+  else Stream.parseBlock Sym.symOps { r.1 with triedToGrow := false }
+
+/-- the `if in_panic_recovery { … }` block at the top of the next iteration (mod.rs:214-241) -/
+def recover (s : LoopSt) : LoopSt :=
+  if s.inRecovery then Stream.recoverBlock Sym.symOps s else s
+
+inductive Pumped where
+  /-- the chunk is exhausted: `response.chunk().await` -/
+  | await (s : LoopSt)
+  /-- `parse_async` returned -/
+  | returned (out : LoopOut) (sf : LoopSt)
+  | fuel
+
+/-- the loop while the current chunk lasts. Every iteration consumes input or changes a flag
+    (`Stream.measure` decreases), so `fuel = measure + 1` is enough; `MdProofs.Lemmas.CacheFsReal`
+    (`feed_total`) shows that `fuel` is never the answer. -/
+def pump : Nat → LoopSt → Pumped
+  | 0, _ => .fuel
+  | fuel + 1, s1 =>
+    match afterFetch false s1 with
+    | .inr (out, sf) => .returned out sf
+    | .inl s' =>
+      let s1' := recover s'
+      if s1'.unread.isEmpty then .await s1' else pump fuel s1'
+
+/-- what the callback was given between two states: the entries pushed on `cb` (newest first) -/
+def newCb (old new : LoopSt) : Bytes :=
+  (new.cb.take (new.cb.length - old.cb.length)).reverse.flatten
+
+def feedFuel (s : LoopSt) (b : Bytes) : Nat := 8 * b.length + 4 * s.buf.data.length + 4
+
+/-- one `Some(chunk)`: `none` = `parse_async` returned (an `Err`: with bytes still unread it
+    cannot be `Ok`, `feed_not_ok`) -/
+def feed (s : LoopSt) (b : Bytes) : Option (LoopSt × Bytes) :=
+  if b.isEmpty then some (s, []) else
+  match pump (feedFuel s b) { s with unread := b } with
+  | .await s' => some (s', newCb s s')
+  | _ => none
+
+/-- the loop after the end of the response -/
+def drain : Nat → LoopSt → Option (LoopOut × LoopSt)
+  | 0, _ => none
+  | fuel + 1, s1 =>
+    match afterFetch true s1 with
+    | .inr r => some r
+    | .inl s' => drain fuel (recover s')
+
+def finishFuel (s : LoopSt) : Nat := 4 * s.buf.data.length + 4
+
+/-- `response.chunk()` returned `None`: `Ok(parser.finish())` or an `Err` -/
+def finish (s : LoopSt) : Option (Bytes × Sym.SymbolFile) :=
+  match drain (finishFuel s) s with
+  | some (.ok ps, sf) =>
+    (match Sym.finish ps with
+     | .ok f => some (newCb s sf, f)
+     | .panic _ => none)
+  | _ => none
+
+/-- `SymbolFile::from_bytes` / `from_file` (a reader that fills the buffer: the empty schedule) -/
+def parse (b : Bytes) : Option Sym.SymbolFile :=
+  match (Sym.parseResult b []).1 with
+  | .ok f => some f
+  | _ => none
+
+/-- every newline-free stretch (every line, an unterminated last one included) is shorter than
+    `MAX_BUFFER_CAPACITY / 2` = 80 KiB (`MdModel.Stream.ShortLines` of the proof side) -/
+def shortLines (input : Bytes) : Prop :=
+  ∀ a seg b, input = a ++ seg ++ b → Stream.NL ∉ seg → seg.length < MAX_BUFFER_CAPACITY / 2
+
+def init : LoopSt := Stream.init INITIAL_BUFFER_CAPACITY {} [] []
+
+def model : ParserModel :=
+  { Sym := Sym.SymbolFile, parse := parse, setUrl := fun t u => { t with url := some u },
+    shortLines := shortLines, σ := LoopSt, init := init, feed := feed, finish := finish }
+
+end Real
+
+/-! ### The opaque download path: `locate_file` → `fetch_lookup` (http.rs:81-132, 378-411)
+
+  Binaries and extra debug files are downloaded without looking at their contents:
+  `locate_file_internal` first asks the local supplier (local symbol paths, then the cache; only a
+  regular file counts), then tries `fetch_lookup` at every server in order — ANY error of a fetch
+  (error status, network error, `create_cache_file` failing, a failing write, `persist_noclobber`
+  finding the name taken) moves on to the next server — and finally returns `NotFound` (the CAB
+  lookup is compiled out: `mozilla_cab_symbols` is off). `fetch_lookup` streams every chunk into a
+  `NamedTempFile` in the tmp directory and then `persist_noclobber`s it to the cache path: no
+  `INFO URL` note, no `remove_file`, and a write failure ends the fetch (it does not "give up on
+  caching" like the symbol path). Same events as above (`Ev`); of `CommitIo` only `persistOk` is
+  used. Not modelled: the per-supplier memo table (`cached_file_paths`): one call per supplier. -/
+namespace File
+
+inductive FResult where
+  /-- the local supplier found a regular file (local symbol path or cache): `Ok((path, None))` -/
+  | foundLocal
+  /-- `fetch_lookup` returned `Ok((final_cache_path, Some(u)))` for the response `rx` -/
+  | fetched (rx : List Bytes) (u : Url)
+  | notFound
+  deriving DecidableEq, Repr
+
+inductive Phase where
+  | start
+  | awaitStatus (u : Url) (rest : List Url)
+  /-- `temp` = contents of the live `NamedTempFile`; `rx` = chunks received (ghost) -/
+  | streaming (u : Url) (rest : List Url) (temp : Bytes) (rx : List Bytes)
+  | done (r : FResult)
+  | dropped
+  deriving DecidableEq, Repr
+
+def Phase.temp : Phase → Option Bytes
+  | .streaming _ _ t _ => some t
+  | _ => none
+
+/-- the `for url in &self.urls` loop moves on; after the last server `Err(FileError::NotFound)` -/
+def nextUrl : List Url → Phase
+  | [] => .done .notFound
+  | u :: rest => .awaitStatus u rest
+
+def step (c : Cache) (req : Req) : Phase → Ev → Cache × Phase
+  | .start, .lookup =>
+    match lookupLocal c req with
+    | some _ => (c, .done .foundLocal)
+    | none => (c, nextUrl req.urls)
+  | .start, .drop => (c, .dropped)
+  | .awaitStatus u rest, .status code createOk =>
+    if isErrorStatus code then (c, nextUrl rest)
+    else if createOk then (c, .streaming u rest [] [])
+    else (c, nextUrl rest)                       -- `create_cache_file(..)?`
+  | .awaitStatus _ rest, .netError => (c, nextUrl rest)
+  | .awaitStatus _ _, .drop => (c, .dropped)
+  | .streaming u rest temp rx, .chunk b writeOk =>
+    if writeOk then (c, .streaming u rest (temp ++ b) (b :: rx))
+    else (c, nextUrl rest)                       -- `temp.write_all(..)?`: the temp file is dropped
+  | .streaming u rest temp rx, .eof io =>
+    -- `temp.persist_noclobber(&final_cache_path)`: fails when ANYTHING has the name
+    match c req.path with
+    | none => if io.persistOk then (c.set req.path (some (.file temp)), .done (.fetched rx u)) else (c, nextUrl rest)
+    | some _ => (c, nextUrl rest)
+  | .streaming _ rest _ _, .netError => (c, nextUrl rest)
+  | .streaming _ _ _ _, .drop => (c, .dropped)
+  | ph, _ => (c, ph)
+
+def runTask (c : Cache) (req : Req) (ph : Phase) : List Ev → Cache × Phase
+  | [] => (c, ph)
+  | e :: es => let r := step c req ph e; runTask r.1 req r.2 es
+
+/-- several `locate_file` calls of one process sharing the cache, any interleaving -/
+structure World where
+  cache : Cache
+  tasks : List (Req × Phase)
+
+def World.step (w : World) (i : Nat) (e : Ev) : World :=
+  match w.tasks[i]? with
+  | none => w
+  | some (req, ph) =>
+    let r := File.step w.cache req ph e
+    { cache := r.1, tasks := w.tasks.set i (req, r.2) }
+
+def World.run (w : World) : List (Nat × Ev) → World
+  | [] => w
+  | (i, e) :: es => (w.step i e).run es
+
+def World.liveTemps (w : World) : List Bytes := w.tasks.filterMap fun t => t.2.temp
+
+end File
+
 /-! ### line protocol
 
-  request : `cache p:<hex path> n:<node> l:<none|hex> e:<ev,ev,…|-> d:<0|1> t:<none|hexurl;hexurl…> [t:…]`
+  request : `cache <p|q>:<hex path> n:<node> l:<none|hex> e:<ev,ev,…|-> d:<0|1> t:<none|hexurl;hexurl…> [t:…]`
+    `p:` = a `locate_symbols` call (symbol file, real parser `Real.model`); `q:` = a `locate_file` call (`File`)
     node  : `none | dir | special | dangling | file:<hex>`        (what sits at the path initially)
     ev    : `<i>L` | `<i>S<code>:<0|1>` | `<i>C<hex>:<0|1>` | `<i>E<wtrp bits>` | `<i>N` | `<i>D`   (i = task digit)
     d:1   : additionally insert a `drop` for task 0 at every position and require a clean outcome
   answer  : `cache:<node'> tmp:<n> r:<res;res…> req:<log;log…> second:<res> drops:<clean|dirty|->`
-    node' : as above with `file:<fnv64>:<len>`; res: `ok:<url|->` `parse-error` `notfound` `dropped` `pending`
+    node' : as above with `file:<fnv64>:<len>`
+    res   : `ok:<url|->#<fnv64 of the canonical dump of the table, url excluded>` `parse-error` `notfound`
+            `dropped` `pending`; for `q:` requests `found` `notfound` `dropped` `pending`
 -/
 
 open Proto
@@ -453,55 +681,52 @@ def parseEv (s : String) : Option (Nat × Option Nat × Ev) :=
 def parseUrls (s : String) : Option (List Url) :=
   if s == "none" then some [] else (s.splitOn ";").mapM unhex
 
-def renderResult (r : Result) : String :=
-  match r with
-  | .localFile b =>
-    match Toy.parse b with
-    | none => "parse-error"
-    | some t => "ok:" ++ (match t.url with | none => "-" | some u => showBytes u)
-  | .downloaded _ u => "ok:" ++ showBytes u
-  | .notFound => "notfound"
+/-- what the driver needs from a machine (`locate_symbols` with a parser, or `locate_file`) to run a
+    tagged event script against it -/
+structure Machine where
+  Ph : Type
+  start : Ph
+  step : Cache → Req → Ph → Ev → Cache × Ph
+  temp : Ph → Option Bytes
+  /-- index of the server the call is waiting for the response head of -/
+  awaiting : Req → Ph → Option Nat
+  /-- index of the server the call is talking to -/
+  current : Req → Ph → Option Nat
+  isDropped : Ph → Bool
+  isDone : Ph → Bool
+  render : Ph → String
+  /-- a later network-less lookup on the given cache -/
+  second : Cache → Path → String
 
-def renderPhase (ph : Phase Toy.model) : String :=
-  match ph with
-  | .done r => renderResult r
-  | .dropped => "dropped"
-  | _ => "pending"
+structure MWorld (M : Machine) where
+  cache : Cache
+  tasks : List (Req × M.Ph)
 
-/-- request log of every task: the index of the server contacted, read off the phases visited -/
-def reqIndex (req : Req) (ph : Phase Toy.model) : Option Nat :=
-  match ph with
-  | .awaitStatus _ rest => some (req.urls.length - rest.length - 1)
-  | _ => none
+def MWorld.step {M : Machine} (w : MWorld M) (i : Nat) (e : Ev) : MWorld M :=
+  match w.tasks[i]? with
+  | none => w
+  | some (req, ph) =>
+    let r := M.step w.cache req ph e
+    { cache := r.1, tasks := w.tasks.set i (req, r.2) }
 
-def isDropped (ph : Phase Toy.model) : Bool :=
-  match ph with
-  | .dropped => true
-  | _ => false
-
-/-- index of the server the call is talking to -/
-def curIndex (req : Req) (ph : Phase Toy.model) : Option Nat :=
-  match ph with
-  | .awaitStatus _ rest => some (req.urls.length - rest.length - 1)
-  | .streaming _ rest _ _ _ _ => some (req.urls.length - rest.length - 1)
-  | _ => none
+def MWorld.liveTemps {M : Machine} (w : MWorld M) : List Bytes := w.tasks.filterMap fun t => M.temp t.2
 
 /-- deliver a (possibly tagged) event -/
-def deliver (w : World Toy.model) (i : Nat) (tag : Option Nat) (e : Ev) : World Toy.model :=
+def deliver {M : Machine} (w : MWorld M) (i : Nat) (tag : Option Nat) (e : Ev) : MWorld M :=
   match tag with
   | none => w.step i e
   | some k =>
     match w.tasks[i]? with
     | none => w
-    | some (req, ph) => if curIndex req ph == some k then w.step i e else w
+    | some (req, ph) => if M.current req ph == some k then w.step i e else w
 
-def runTagged (w : World Toy.model) : List (Nat × Option Nat × Ev) → World Toy.model
+def runTagged {M : Machine} (w : MWorld M) : List (Nat × Option Nat × Ev) → MWorld M
   | [] => w
   | (i, tag, e) :: es => runTagged (deliver w i tag e) es
 
 /-- run the world event by event, logging for each task the servers it sends a request to -/
-def runLogged (w : World Toy.model) (logs : List (List Nat)) :
-    List (Nat × Option Nat × Ev) → World Toy.model × List (List Nat)
+def runLogged {M : Machine} (w : MWorld M) (logs : List (List Nat)) :
+    List (Nat × Option Nat × Ev) → MWorld M × List (List Nat)
   | [] => (w, logs)
   | (i, tag, e) :: es =>
     let w' := deliver w i tag e
@@ -511,44 +736,131 @@ def runLogged (w : World Toy.model) (logs : List (List Nat)) :
         -- a new request is sent whenever the step enters `awaitStatus` (from any other phase, or
         -- from `awaitStatus` of the previous server)
         let entered :=
-          match reqIndex req after with
+          match M.awaiting req after with
           | none => none
-          | some k => if reqIndex req before == some k then none else some k
+          | some k => if M.awaiting req before == some k then none else some k
         match entered with
         | none => logs
         | some k => logs.modify i (· ++ [k])
       | _, _ => logs
     runLogged w' logs' es
 
-def secondLookup (c : Cache) (p : Path) : String :=
-  let r := step (P := Toy.model) c ⟨p, none, []⟩ .start .lookup
-  renderPhase r.2
-
-def dropsClean (w0 : World Toy.model) (p : Path) (evs : List (Nat × Option Nat × Ev)) : Bool :=
-  (List.range (evs.length + 1)).all fun k =>
-    let wk := runTagged w0 (evs.take k)
-    match wk.tasks[0]? with
+/-- drop task 0 before every event position in turn (and after the last): the drop itself and
+    whatever follows leave no temp file and the node at `p` as it was initially -/
+def dropsCleanFrom {M : Machine} (n0 : String) (p : Path) (w : MWorld M) (evs : List (Nat × Option Nat × Ev)) : Bool :=
+  let here :=
+    match w.tasks[0]? with
     | none => false
     | some (_, ph) =>
-      match ph with
-      | .done _ => true            -- already complete: a later drop is not a drop of the future
-      | .dropped => true
-      | _ =>
-        let wd := wk.step 0 .drop
-        wd.liveTemps.isEmpty && (Node.render (wd.cache p) == Node.render (w0.cache p)) &&
-          ((wd.tasks[0]?).any fun t => isDropped t.2) &&
+      if M.isDone ph || M.isDropped ph then true   -- already complete: a later drop is not a drop of the future
+      else
+        let wd := w.step 0 .drop
+        wd.liveTemps.isEmpty && (Node.render (wd.cache p) == n0) &&
+          ((wd.tasks[0]?).any fun t => M.isDropped t.2) &&
           -- and nothing that follows changes that
-          (let we := runTagged wd (evs.drop k)
-           we.liveTemps.isEmpty && Node.render (we.cache p) == Node.render (w0.cache p))
+          (let we := runTagged wd evs
+           we.liveTemps.isEmpty && Node.render (we.cache p) == n0)
+  here && (match evs with
+    | [] => true
+    | (i, tag, e) :: rest => dropsCleanFrom n0 p (deliver w i tag e) rest)
+
+/-! #### the two machines -/
+
+namespace Real
+
+/-- fnv64 of the canonical dump (`MdModel.Sym.dump`, the one engine `sym` compares) without the URL -/
+def tableTag (t : Sym.SymbolFile) : String :=
+  hex16 (Sym.fnvString (Sym.dump { t with url := none }))
+
+def renderSym (t : Sym.SymbolFile) : String :=
+  "ok:" ++ (match t.url with | none => "-" | some u => showBytes u) ++ "#" ++ tableTag t
+
+def renderResult (r : Result) : String :=
+  match r with
+  | .localFile b =>
+    match parse b with
+    | none => "parse-error"
+    | some t => renderSym t
+  | .downloaded rx u =>
+    -- (`downloaded_is_complete`: the stream parse of `rx` did succeed)
+    match model.stream rx with
+    | some (_, t) => renderSym { t with url := some u }
+    | none => "MODEL-INCONSISTENT"
+  | .notFound => "notfound"
+
+def machine : Machine :=
+  { Ph := Phase model, start := .start, step := CacheFs.step (P := model), temp := Phase.temp
+    awaiting := fun req ph => match ph with
+      | .awaitStatus _ rest => some (req.urls.length - rest.length - 1)
+      | _ => none
+    current := fun req ph => match ph with
+      | .awaitStatus _ rest => some (req.urls.length - rest.length - 1)
+      | .streaming _ rest _ _ _ _ => some (req.urls.length - rest.length - 1)
+      | _ => none
+    isDropped := fun ph => match ph with | .dropped => true | _ => false
+    isDone := fun ph => match ph with | .done _ => true | _ => false
+    render := fun ph => match ph with
+      | .done r => renderResult r
+      | .dropped => "dropped"
+      | _ => "pending"
+    second := fun c p =>
+      match (CacheFs.step (P := model) c ⟨p, none, []⟩ .start .lookup).2 with
+      | .done r => renderResult r
+      | .dropped => "dropped"
+      | _ => "pending" }
+
+end Real
+
+namespace File
+
+def machine : Machine :=
+  { Ph := Phase, start := .start, step := File.step, temp := Phase.temp
+    awaiting := fun req ph => match ph with
+      | .awaitStatus _ rest => some (req.urls.length - rest.length - 1)
+      | _ => none
+    current := fun req ph => match ph with
+      | .awaitStatus _ rest => some (req.urls.length - rest.length - 1)
+      | .streaming _ rest _ _ => some (req.urls.length - rest.length - 1)
+      | _ => none
+    isDropped := fun ph => match ph with | .dropped => true | _ => false
+    isDone := fun ph => match ph with | .done _ => true | _ => false
+    render := fun ph => match ph with
+      | .done .foundLocal => "found"
+      | .done (.fetched _ _) => "found"
+      | .done .notFound => "notfound"
+      | .dropped => "dropped"
+      | _ => "pending"
+    second := fun c p =>
+      match (File.step c ⟨p, none, []⟩ .start .lookup).2 with
+      | .done .notFound => "notfound"
+      | .done _ => "found"
+      | _ => "pending" }
+
+end File
 
 def field (key : String) (s : String) : Option String :=
   if s.startsWith (key ++ ":") then some ((s.drop (key.length + 1)).toString) else none
+
+def answer (M : Machine) (path : Path) (node : Option Node) (localHit : Option Bytes)
+    (evs : List (Nat × Option Nat × Ev)) (d : Bool) (urlss : List (List Url)) : String :=
+  let c0 : Cache := fun q => if q = path then node else none
+  let w0 : MWorld M := { cache := c0, tasks := urlss.map fun us => (⟨path, localHit, us⟩, M.start) }
+  let (w, logs) := runLogged w0 (urlss.map fun _ => []) evs
+  let res := joinWith ";" (w.tasks.map fun t => M.render t.2)
+  let req := joinWith ";" (logs.map fun lg =>
+    if lg.isEmpty then "-" else joinWith "," (lg.map toString))
+  let drops := if d then (if dropsCleanFrom (Node.render (c0 path)) path w0 evs then "clean" else "dirty") else "-"
+  s!"cache:{Node.render (w.cache path)} tmp:{w.liveTemps.length} r:{res} req:{req} second:{M.second w.cache path} drops:{drops}"
 
 def handle (_engine : String) (args : List String) : String :=
   match args with
   | fp :: fn :: fl :: fe :: fd :: fts =>
     let parsed : Option String := do
-      let p ← (field "p" fp) >>= unhex
+      let (isFile, ph) ← (match field "p" fp, field "q" fp with
+        | some h, _ => some (false, h)
+        | none, some h => some (true, h)
+        | none, none => none)
+      let p ← unhex ph
       let path := showBytes p
       let node ← (field "n" fn) >>= parseNode
       let l ← field "l" fl
@@ -558,15 +870,8 @@ def handle (_engine : String) (args : List String) : String :=
       let d ← (field "d" fd) >>= parseBool
       let urlss ← fts.mapM fun t => (field "t" t) >>= parseUrls
       if urlss.isEmpty then none else
-      let c0 : Cache := fun q => if q = path then node else none
-      let w0 : World Toy.model :=
-        { cache := c0, tasks := urlss.map fun us => (⟨path, localHit, us⟩, .start) }
-      let (w, logs) := runLogged w0 (urlss.map fun _ => []) evs
-      let res := joinWith ";" (w.tasks.map fun t => renderPhase t.2)
-      let req := joinWith ";" (logs.map fun lg =>
-        if lg.isEmpty then "-" else joinWith "," (lg.map toString))
-      let drops := if d then (if dropsClean w0 path evs then "clean" else "dirty") else "-"
-      pure s!"cache:{Node.render (w.cache path)} tmp:{w.liveTemps.length} r:{res} req:{req} second:{secondLookup w.cache path} drops:{drops}"
+      pure (if isFile then answer File.machine path node localHit evs d urlss
+            else answer Real.machine path node localHit evs d urlss)
     parsed.getD "bad-op"
   | _ => "bad-op"
 
